@@ -19,6 +19,9 @@ pub enum Op {
     Restrict(u16, u8, bool),
     ReimportNodes,
     ReimportSerde,
+    /// `Bdd::node(var, lo, hi)` called directly (public; used by the streaming checks only: the label need not respect
+    /// the variable order, a mirror copies what it is sent)
+    RawNode(u8, u16, u16),
 }
 
 pub const BIN_NAMES: [&str; 5] = ["and", "or", "imp", "iff", "xor"];
@@ -31,6 +34,7 @@ pub fn op_json(op: &Op) -> Value {
         Op::Restrict(h, v, b) => json!({"op": "restrict", "a": h, "var": v, "val": b}),
         Op::ReimportNodes => json!({"op": "reimport-nodes"}),
         Op::ReimportSerde => json!({"op": "reimport-serde"}),
+        Op::RawNode(v, a, b) => json!({"op": "node", "var": v, "a": a, "b": b}),
     }
 }
 
@@ -44,6 +48,7 @@ pub fn op_from_json(v: &Value) -> Option<Op> {
         "restrict" => Op::Restrict(a, v["var"].as_u64()? as u8, v["val"].as_bool()?),
         "reimport-nodes" => Op::ReimportNodes,
         "reimport-serde" => Op::ReimportSerde,
+        "node" => Op::RawNode(v["var"].as_u64()? as u8, a, b),
         _ => Op::Bin(BIN_NAMES.iter().position(|n| *n == name)? as u8, a, b),
     })
 }
@@ -68,6 +73,7 @@ pub fn apply(bdd: &mut Bdd, op: &Op) -> Option<Term> {
             })
         }
         Op::Restrict(h, v, b) => Some(bdd.restrict(Term(h as usize), Var(v as usize), b)),
+        Op::RawNode(v, lo, hi) => Some(bdd.node(Var(v as usize), Term(lo as usize), Term(hi as usize))),
         Op::ReimportNodes => {
             *bdd = Bdd::from(bdd.nodes.clone());
             None
